@@ -325,6 +325,234 @@ theorem signature_unchanged (agent : Bytes → Conn) (k : Key) (data : Bytes) (a
   have := congrArg (fun p => match p with | (Field.str s, _) => s | _ => []) this
   simpa using this
 
+/-! ## several requests on one connection: no reply is ever attributed to another request -/
+
+private theorem readLoop_of_St (fuel wanted : Nat) (result : Bytes) (c : Conn) :
+    readLoop fuel wanted result c =
+      match readLoopSt fuel wanted result c with
+      | (.ok b, c') => .ok (b, c')
+      | (.error e, _) => .error e := by
+  induction fuel generalizing result c with
+  | zero =>
+    unfold readLoop readLoopSt
+    by_cases h1 : result.length < wanted
+    · rw [if_pos h1, if_pos h1]
+      by_cases h2 : result.length = 0
+      · rw [if_pos h2, if_pos h2]
+      · rw [if_neg h2, if_neg h2]
+    · rw [if_neg h1, if_neg h1]
+  | succ fuel ih =>
+    unfold readLoop readLoopSt
+    by_cases h1 : result.length < wanted
+    · rw [if_pos h1, if_pos h1]
+      by_cases h2 : result.length = 0
+      · rw [if_pos h2, if_pos h2]
+      · rw [if_neg h2, if_neg h2]
+        simp only
+        by_cases h3 : (recv c (wanted - result.length)).1.length = 0
+        · rw [if_pos h3, if_pos h3]
+        · rw [if_neg h3, if_neg h3]; exact ih _ _
+    · rw [if_neg h1, if_neg h1]
+
+private theorem readAll_of_St (wanted : Nat) (c : Conn) :
+    readAll wanted c =
+      match readAllSt wanted c with
+      | (.ok b, c') => .ok (b, c')
+      | (.error e, _) => .error e := by
+  simp only [readAll, readAllSt]; exact readLoop_of_St _ _ _ _
+
+/-- one step on a live connection is the one-shot `sign_ssh_data` against "what was left over ++ this reply" -/
+theorem signStep_fst (k : Key) (data : Bytes) (alg : Option String) (reply : Bytes) (caps : List Nat) (c : Conn) :
+    (signStep k data alg reply caps c).1 =
+      signSshData (fun _ => { data := c.data ++ reply, caps := c.caps ++ caps }) k data alg := by
+  simp only [signStep, signSshData, sendMessage]
+  rw [readAll_of_St]
+  rcases h1 : readAllSt 4 { data := c.data ++ reply, caps := c.caps ++ caps } with ⟨r1, c1⟩
+  cases r1 with
+  | error e => rfl
+  | ok hdr =>
+    simp only
+    rw [readAll_of_St]
+    rcases h2 : readAllSt (beVal hdr) c1 with ⟨r2, c2⟩
+    cases r2 with
+    | error e => rfl
+    | ok body =>
+      simp only
+      split <;> rfl
+
+private theorem recv_caps_pos (c : Conn) (n : Nat) (h : ∀ m ∈ c.caps, 0 < m) : ∀ m ∈ (recv c n).2.caps, 0 < m := by
+  intro m hm
+  simp only [recv] at hm
+  exact h m (List.mem_of_mem_tail hm)
+
+private theorem recv_eq_chunk (c : Conn) (n : Nat) :
+    recv c n = (c.data.take (chunk c.caps n), { data := c.data.drop (chunk c.caps n), caps := c.caps.tail }) := by
+  cases hc : c.caps <;> simp [recv, chunk, hc]
+
+private theorem recv_empty_drained (c : Conn) (n : Nat) (hn : 0 < n) (h : ∀ m ∈ c.caps, 0 < m)
+    (he : (recv c n).1.length = 0) : (recv c n).2.data = [] := by
+  rw [recv_eq_chunk] at he ⊢
+  have hk := chunk_pos c.caps n h hn
+  simp only at he ⊢
+  have : c.data = [] := by
+    cases hd : c.data with
+    | nil => rfl
+    | cons x xs =>
+      rw [hd, List.length_take] at he
+      simp only [List.length_cons] at he
+      omega
+  simp [this]
+
+private theorem readLoopSt_props (fuel wanted : Nat) (result : Bytes) (c : Conn) (h : ∀ m ∈ c.caps, 0 < m)
+    (hr : result.length = 0 → wanted = 0 ∨ c.data = []) :
+    (∀ m ∈ (readLoopSt fuel wanted result c).2.caps, 0 < m) ∧
+    ((readLoopSt fuel wanted result c).1 = .error .lostAgent → (readLoopSt fuel wanted result c).2.data = []) := by
+  induction fuel generalizing result c with
+  | zero =>
+    unfold readLoopSt
+    by_cases h1 : result.length < wanted
+    · rw [if_pos h1]
+      by_cases h2 : result.length = 0
+      · rw [if_pos h2]
+        refine ⟨h, fun _ => ?_⟩
+        rcases hr h2 with h3 | h3
+        · omega
+        · exact h3
+      · rw [if_neg h2]
+        exact ⟨h, fun e => by cases e⟩
+    · rw [if_neg h1]
+      exact ⟨h, fun e => by cases e⟩
+  | succ fuel ih =>
+    unfold readLoopSt
+    by_cases h1 : result.length < wanted
+    · rw [if_pos h1]
+      by_cases h2 : result.length = 0
+      · rw [if_pos h2]
+        refine ⟨h, fun _ => ?_⟩
+        rcases hr h2 with h3 | h3
+        · omega
+        · exact h3
+      · rw [if_neg h2]
+        simp only
+        by_cases h3 : (recv c (wanted - result.length)).1.length = 0
+        · rw [if_pos h3]
+          exact ⟨recv_caps_pos c _ h, fun _ => recv_empty_drained c _ (by omega) h h3⟩
+        · rw [if_neg h3]
+          apply ih _ _ (recv_caps_pos c _ h)
+          intro he
+          simp only [List.length_append] at he
+          omega
+    · rw [if_neg h1]
+      exact ⟨h, fun e => by cases e⟩
+
+private theorem readAllSt_props (wanted : Nat) (c : Conn) (h : ∀ m ∈ c.caps, 0 < m) :
+    (∀ m ∈ (readAllSt wanted c).2.caps, 0 < m) ∧
+    ((readAllSt wanted c).1 = .error .lostAgent → (readAllSt wanted c).2.data = []) := by
+  simp only [readAllSt]
+  apply readLoopSt_props _ _ _ _ (recv_caps_pos c _ h)
+  intro he
+  by_cases hw : wanted = 0
+  · exact Or.inl hw
+  · exact Or.inr (recv_empty_drained c wanted (by omega) h he)
+
+private theorem readAllSt_complete (x rest : Bytes) (caps : List Nat) (hcaps : ∀ n ∈ caps, 0 < n) :
+    ∃ caps', (∀ n ∈ caps', 0 < n) ∧
+      readAllSt x.length { data := x ++ rest, caps := caps } = (.ok x, { data := rest, caps := caps' }) := by
+  obtain ⟨caps', hc', hr⟩ := readAll_complete x rest caps hcaps
+  refine ⟨caps', hc', ?_⟩
+  rw [readAll_of_St] at hr
+  rcases h : readAllSt x.length { data := x ++ rest, caps := caps } with ⟨r, c'⟩
+  rw [h] at hr
+  cases r with
+  | error e => cases hr
+  | ok b =>
+    simp only [Except.ok.injEq, Prod.mk.injEq] at hr
+    rw [hr.1, hr.2]
+
+/-- a connection on which nothing is pending and whose `recv` never signals EOF while data is there -/
+def Clean (c : Conn) : Prop := c.data = [] ∧ ∀ m ∈ c.caps, 0 < m
+
+/-- **A lost-agent error leaves nothing behind.**  Whatever the agent sent (e.g. a length prefix announcing more than
+it delivers, however large): if the request ends in `SSHException("lost ssh-agent")`, every byte of that reply has
+been consumed — the next request on the same connection starts at its own reply. -/
+theorem lost_leaves_nothing (k : Key) (data : Bytes) (alg : Option String) (reply : Bytes) (caps : List Nat)
+    (c : Conn) (hc : ∀ m ∈ c.caps, 0 < m) (hcaps : ∀ m ∈ caps, 0 < m)
+    (hlost : (signStep k data alg reply caps c).1.2 = .error .lostAgent) :
+    Clean (signStep k data alg reply caps c).2 := by
+  have h0 : ∀ m ∈ ({ data := c.data ++ reply, caps := c.caps ++ caps } : Conn).caps, 0 < m := by
+    intro m hm
+    simp only [List.mem_append] at hm
+    rcases hm with hm | hm
+    · exact hc m hm
+    · exact hcaps m hm
+  unfold signStep at hlost ⊢
+  simp only at hlost ⊢
+  obtain ⟨p1, d1⟩ := readAllSt_props 4 _ h0
+  rcases h1 : readAllSt 4 { data := c.data ++ reply, caps := c.caps ++ caps } with ⟨r1, c1⟩
+  rw [h1] at hlost p1 d1
+  cases r1 with
+  | error e =>
+    simp only at hlost ⊢
+    cases e with
+    | lostAgent => exact ⟨d1 rfl, p1⟩
+    | cannotSign => cases hlost
+    | fuel => cases hlost
+  | ok hdr =>
+    simp only at hlost ⊢ p1
+    obtain ⟨p2, d2⟩ := readAllSt_props (beVal hdr) c1 p1
+    rcases h2 : readAllSt (beVal hdr) c1 with ⟨r2, c2⟩
+    rw [h2] at hlost p2 d2
+    cases r2 with
+    | error e =>
+      simp only at hlost ⊢
+      cases e with
+      | lostAgent => exact ⟨d2 rfl, p2⟩
+      | cannotSign => cases hlost
+      | fuel => cases hlost
+    | ok body =>
+      simp only at hlost
+      split at hlost <;> cases hlost
+
+/-- **A well-framed reply is consumed exactly.**  On a clean connection, a reply `uint32 len ++ body` under any
+fragmentation yields the one-shot result for that reply and leaves the connection clean again. -/
+theorem well_framed_step (k : Key) (data : Bytes) (alg : Option String) (body : Bytes) (caps : List Nat)
+    (c : Conn) (hc : Clean c) (hb : body.length < 4294967296) (hcaps : ∀ m ∈ caps, 0 < m) :
+    (signStep k data alg (be32 body.length ++ body) caps c).1.2 =
+      (if (body.headD 0).toNat = 14 then .ok (Rd.getString { content := body, pos := min 1 body.length }).1
+       else .error .cannotSign) ∧
+    Clean (signStep k data alg (be32 body.length ++ body) caps c).2 := by
+  obtain ⟨hd, hp⟩ := hc
+  have h0 : ∀ m ∈ c.caps ++ caps, 0 < m := by
+    intro m hm
+    simp only [List.mem_append] at hm
+    rcases hm with hm | hm
+    · exact hp m hm
+    · exact hcaps m hm
+  constructor
+  · rw [signStep_fst]
+    have := well_framed_reply (fun _ => { data := c.data ++ (be32 body.length ++ body), caps := c.caps ++ caps })
+      k data alg body [] (c.caps ++ caps) hb h0 (by simp [hd])
+    exact this
+  · unfold signStep
+    simp only [hd, List.nil_append]
+    have h4 : (be32 body.length).length = 4 := by simp [be32]
+    obtain ⟨caps1, hc1, hr1⟩ := readAllSt_complete (be32 body.length) body (c.caps ++ caps) h0
+    rw [h4] at hr1
+    rw [hr1]
+    simp only [beVal_be32 body.length hb]
+    obtain ⟨caps2, hc2, hr2⟩ := readAllSt_complete body [] caps1 hc1
+    rw [List.append_nil] at hr2
+    rw [hr2]
+    simp only
+    split <;> exact ⟨rfl, hc2⟩
+
+/-- the mutant scenario of the seeded change C45-3 on the real semantics: an oversized announcement (300000 bytes,
+9 delivered — a forged type-14 frame) raises "lost ssh-agent" and is drained; the next request gets its own reply -/
+example : (signSession ⟨[], []⟩
+    [⟨⟨[9], none⟩, [1], none, [0, 4, 147, 224, 0, 0, 0, 5, 14, 0, 0, 0, 0], []⟩,
+     ⟨⟨[9], none⟩, [2], none, [0, 0, 0, 6, 14, 0, 0, 0, 1, 77], [3, 3]⟩]).1.map (·.2)
+    = [.error .lostAgent, .ok [77]] := by rfl
+
 /-! ## non-vacuity -/
 
 def demoAgent (reply : Bytes) (caps : List Nat) : Bytes → Conn := fun _ => { data := reply, caps := caps }
